@@ -378,7 +378,12 @@ func (d *ioDriver) complete(op *ioOp, err error, n int) {
 	}
 	// a cancellation callback that re-arms
 	if o.rearm && errors.Is(err, sonicerrors.ErrCancelled) && !o.closed && op.chain < d.maxChain {
-		d.start(o, op.kind, 0, op.chain+1)
+		// the same operation again, in the same form (an *All form may be satisfied in part at once and park again)
+		variant := 0
+		if op.all && (op.kind == "read" || op.kind == "write") {
+			variant = 2
+		}
+		d.start(o, op.kind, variant, op.chain+1)
 		return
 	}
 	d.behave(op)
@@ -745,6 +750,11 @@ func (d *ioDriver) actions() []ioAction {
 				}
 				if o.rd != nil || o.wr != nil {
 					add("cancel("+o.name+")", func() { d.cancel(o) })
+					add("cancel-and-restart-from-the-callback("+o.name+")", func() {
+						o.rearm = true
+						d.cancel(o)
+						o.rearm = false
+					})
 				}
 			case o.kind == "reg":
 				if o.rd == nil {
@@ -755,7 +765,9 @@ func (d *ioDriver) actions() []ioAction {
 					add("readfrom("+o.name+")", func() { d.start(o, "readfrom", d.x.Deviate(3, "readfrom variant"), 0) })
 				}
 				if o.wr == nil {
-					add("writeto("+o.name+")", func() { d.start(o, "writeto", d.x.Deviate(2, "writeto variant"), 0) })
+					add("writeto("+o.name+")", func() { d.start(o, "writeto", 0, 0) })
+					// a datagram write that stays in flight until the next poll is a first-class action too
+					add("writeto-deferred("+o.name+")", func() { d.start(o, "writeto", 1, 0) })
 				}
 			case o.lst != nil:
 				if o.rd == nil {
